@@ -53,7 +53,7 @@ const (
 	outDir   = "rel/out"
 	snapDir  = "rel/snap"
 	imgName  = "uefi.fd"
-	hardCap  = 40 // attempts after which the double refuses to go on (livelock guard)
+	hardCap  = 40         // attempts after which the double refuses to go on (livelock guard)
 	modeVF   = "vf"       // endorse.VirtualFirmware, manifest method
 	modeSnap = "snapshot" // endorse.VirtualFirmware, snapshot method (no manifest)
 	modeDir  = "direct"   // endorse.RetrySubmit with a harness change function
@@ -254,7 +254,7 @@ type vcsDouble struct {
 	wss      []*workspace
 	created  int // GetChangeOps calls
 	rcalls   int
-	overflow bool // more attempts than script steps
+	overflow bool   // more attempts than script steps
 	corrupt  string // the head manifest carries content unknown to the schema ("top" | "entry")
 	// self-test only: the harness change function keeps the first manifest content it ever read
 	cacheManifest bool
@@ -1472,7 +1472,7 @@ func variantSubmit(v loopVariant) submitFn {
 		if err != nil {
 			return err
 		}
-			var shared endorse.ChangeOps
+		var shared endorse.ChangeOps
 		allowed := bound(ec.CommitRetries) + v.offByOne
 		if v.zeroOnNegative && ec.CommitRetries < 0 {
 			return endorse.ErrNoRetries
@@ -1490,7 +1490,7 @@ func variantSubmit(v loopVariant) submitFn {
 						shared = cops
 					}
 				}
-					p, err := f(ctx, cops)
+				p, err := f(ctx, cops)
 				if err != nil {
 					cops.Destroy()
 					if v.destroyTwice {
@@ -1500,7 +1500,7 @@ func variantSubmit(v loopVariant) submitFn {
 				}
 				commit, err := cops.TryCommit(ctx)
 				if err != nil {
-						if !v.noDestroy {
+					if !v.noDestroy {
 						cops.Destroy()
 					}
 					if v.destroyTwice {
@@ -1514,7 +1514,7 @@ func variantSubmit(v loopVariant) submitFn {
 				ec.VCS.Result(commit, p)
 				return nil
 			}()
-				if err == nil {
+			if err == nil {
 				return nil
 			}
 			if v.lastNoAsk && n >= allowed {
@@ -1565,7 +1565,7 @@ func TestOracleSelfTest(t *testing.T) {
 		hits := map[string]int{}
 		n := 0
 		for _, b := range []int{-1, 0, 1} {
-				rot := 0
+			rot := 0
 			vsites := sites
 			if v.fewSites {
 				vsites = []string{sWS, sRead, sCommit, sChange}
@@ -1582,7 +1582,7 @@ func TestOracleSelfTest(t *testing.T) {
 				n++
 				if vd, _ := judge(sc, d, err, pan); vd != nil {
 					hits[vd.Key]++
-						if len(v.wantKeys) == 0 {
+					if len(v.wantKeys) == 0 {
 						t.Fatalf("harness: oracle rejects the correct loop %q: %s :: %s", v.name, vd.Key, vd.Msg)
 					}
 				}
